@@ -366,6 +366,15 @@ def g_names_set(ctx):
         for i, a in enumerate(c.args):
             if any(o.kind == "param" and o.ref == 3 for o in sf.trace_operand(a)):
                 uses.append(c.name)
+    # whatever consumes the names through an iterator is a membership / counting test too (`iter().any(..)`), never a positional one
+    # (`iter().find(..)`, `first()`, `position(..)`: the result would depend on the HashMap order the Vec was collected in)
+    for g in prog.family(sf):
+        for c in g.calls:
+            if c.bb not in g.live_blocks or not c.args or c.args[0][0] == "k" or c.name in ("contains", "iter", "into_iter", "any", "all", "count", "len", "is_empty", "as_ptr", "deref"):
+                continue
+            roots = deep_roots(prog, g, c.args[0], TRANSPARENT | {"iter", "into_iter", "deref", "as_ref", "copied", "cloned", "by_ref"})
+            if g is sf and any(o.kind == "param" and o.ref == 3 and not [p_ for p_ in o.proj if p_ != "*" and not str(p_).startswith("()")] for o in roots):
+                uses.append(c.name)
     ct = prog.one_fn(r"^ast_grep_core::replacer::template::create_template$")
     passes = [c for c in ct.calls for a in c.args if any(o.kind == "param" and o.ref == 3 for o in ct.trace_operand(a))]
     only_forward = all(c.name == "split_first_meta_var" for c in passes)
